@@ -231,9 +231,20 @@ def apply_model(M, cls, op):
     return free
 
 
+_BOND_ARG_KINDS = (tuple, list, frozenset, iter, lambda b: (x for x in b), lambda b: map(int, [str(x) for x in b]))
+def _bond_arg(b, salt):
+    """a bond given as Iterable[AtomId]: tuple, list, frozenset or a one-shot iterable, chosen from the request itself
+    (replayable)"""
+    import zlib
+
+    return _BOND_ARG_KINDS[zlib.crc32(repr(salt).encode()) % len(_BOND_ARG_KINDS)](list(b))
+
+
 def apply_real(g, op):
     """execute op on the real object; returns ('ok', value) or ('raised', exception type name)"""
     name, *a = fresh(op)
+    if name in ("delete_bond_stereo", "delete_bond_stereo_change") and isinstance(a[0], (list, tuple)) and len(a[0]) == 2:
+        a[0] = _bond_arg(a[0], op)
     try:
         if name == "add_atom":
             r = g.add_atom(a[0], a[1], **(a[2] if len(a) > 2 else {}))
